@@ -12,7 +12,7 @@ RULE = ("Hypothesis-generated operation histories on a real spot session state (
         "cancel followed by a later submission on the same side, or a partial sell, or a rejection.")
 ASSUMPTIONS = [
     "balances are compared with 1e-9 relative tolerance (jesse multiplies qty*price in doubles before its decimal bookkeeping)",
-    "resting LIMIT/STOP sells are reduce-only (what Broker.reduce_position_at submits); MARKET sells are drawn either way",
+    "sells of every type are drawn both reduce-only (what Broker.reduce_position_at submits) and plain (Broker.sell_at / start_profit_at)",
     "MARKET orders are executed in the same operation that submits them (the simulator flushes them in the same step)",
     "the attached strategy layer cancels everything resting when the position closes; the reference is fed those observed cancellations",
     "'sell exactly the free base must be accepted' (ladder / flatten operations) is only demanded while every order quantity so far has at most 10 significant digits: with 16-digit quantities even decimal-exact bookkeeping rounds to the nearest double at every step",
@@ -139,7 +139,7 @@ def run_history(cfg, ops):
                         qty = float(f'{qty:.8f}')
                 if qty <= 0:
                     continue
-                reduce_only = True if (side == 'sell' and typ != 'MARKET') else bool(ro and side == 'sell')
+                reduce_only = bool(ro and side == 'sell')  # resting sells too: Broker.sell_at / start_profit_at submit plain orders, reduce_position_at reduce-only ones
                 lhs, rhs = model.accepts(s, side, typ, qty, price)
                 ambiguous = abs(lhs - rhs) <= TOL * max(1, abs(rhs))
                 if side == 'sell' and size_code == 1.0:
@@ -198,7 +198,10 @@ def run_history(cfg, ops):
                         continue
                     ambiguous = abs(lhs - rhs) <= TOL * max(1, abs(rhs))
                     try:
-                        live.append(b.order(s, 'sell', typ, qty, price, reduce_only=True))
+                        # plain (not reduce-only) exits are what Broker.sell_at / start_profit_at submit; reduce-only ones come from reduce_position_at
+                        live.append(b.order(s, 'sell', typ, qty, price, reduce_only=not (len(op) > 4 and op[4])))
+                        if len(op) > 4 and op[4]:
+                            flags.add('plain-sell-bracket')
                     except InsufficientBalance:
                         flags.add('rejection')
                         if not ambiguous:
@@ -413,7 +416,7 @@ def run_shard(acc, shard, nshards, seed, tier):
     submit = st.tuples(st.just('submit'), st.integers(0, 1), st.sampled_from(['buy', 'buy', 'sell', 'sell', 'sell']),
                        st.sampled_from(['MARKET', 'LIMIT', 'LIMIT', 'STOP']), sizes, st.integers(-30, 30), st.booleans())
     modify = st.tuples(st.just('modify'), st.integers(0, 9), st.sampled_from(['same', 'bigger', 'max', 'max+released', 'half']))
-    bracket = st.tuples(st.just('bracket'), st.integers(0, 1), st.sampled_from([0.25, 0.5, 0.6, 1.0]), st.sampled_from([0.5, 0.999, 1.0, 1.0]))
+    bracket = st.tuples(st.just('bracket'), st.integers(0, 1), st.sampled_from([0.25, 0.5, 0.6, 1.0]), st.sampled_from([0.5, 0.999, 1.0, 1.0]), st.booleans())
     flatten = st.tuples(st.just('flatten'), st.integers(0, 1), st.sampled_from(['MARKET', 'LIMIT', 'STOP']))
     ladder = st.tuples(st.just('ladder'), st.integers(0, 1), st.sampled_from(['LIMIT', 'STOP']),
                        st.sampled_from([(0.3, 0.7), (0.5, 0.5), (0.3, 0.3, 0.4), (0.1, 0.9), (0.7, 0.3), (0.25, 0.5, 0.25)]))
